@@ -152,6 +152,21 @@ CHECKS = {
             "bounds, limits respected, within the time budget'); memory consumption is not judged; whether valid names decode "
             "to the right labels is judged by C02.",
             "DESIGN.md section 4 C01", "wire"),
+    "C02": ("model_checking",
+            "the TLA+ meaning of a name in a message (model-checked against the reader machine) is the oracle that decides, in a "
+            "TLA+ trace monitor, that every name of every encoded message means the original name whatever compression layout was "
+            "chosen; valid names enumerated by TLC replayed through Name::read; value and byte round trips recorded and judged",
+            "Compression -- where the listed interactions of the property live -- is decided by the specification: for thousands of "
+            "random messages (30 RDATA types, flags, opcodes, extended RCODEs, EDNS options, TSIG, 150-400-record messages beyond "
+            "the 120-name and 0x3FFF compressor limits) an independent wire walker locates each question/owner name and TLC "
+            "evaluates DecodeName on the encoded bytes (prior, complete, case-exact); header counts, OPT/TSIG placement, RCODE "
+            "split and absence of trailing bytes are judged from the walker's output; decode(encode(m)) = m; accepted byte "
+            "strings (valid and mutated) are re-encoded and re-decoded and RDATA of non-compressible types compared byte for "
+            "byte. Every valid (buffer, offset) of the exhaustive small scope must decode to exactly the specified labels.",
+            "Value equality is hickory's PartialEq (+ case-exact owner names); field-value fidelity of each RDATA type is exercised "
+            "by corpus values, not decided by TLC; names inside RDATA are covered through message equality, not through the layout "
+            "oracle.",
+            "DESIGN.md section 4 C02", "wire"),
 }
 
 NOT_YET = {
